@@ -6,7 +6,7 @@ import hexlib
 from common import hx
 
 ID = "C01"
-LEAN_IMPORTS = ["PyTrie.Props.C01", "PyTrie.Props.C01World", "PyTrie.Props.RawLevel"]
+LEAN_IMPORTS = ["PyTrie.Props.C01", "PyTrie.Props.C01World", "PyTrie.Props.RawLevel", "PyTrie.Props.NonVacuity"]
 THEOREMS = [
     "PyTrie.Props.C01.get_set",
     "PyTrie.Props.C01.get_delete",
@@ -22,6 +22,13 @@ THEOREMS = [
     "PyTrie.Props.Raw.set_refines",
     "PyTrie.Props.Raw.delete_refines",
     "PyTrie.Props.Raw.keccak_is_std",
+    "PyTrie.Props.NonVacuity.c01_world_get_np",
+    "PyTrie.Props.NonVacuity.c01_world_get_p",
+    "PyTrie.Props.NonVacuity.hist_reach_np",
+    "PyTrie.Props.NonVacuity.hist_reach_p",
+    "PyTrie.Props.NonVacuity.set_refines_witness",
+    "PyTrie.Props.NonVacuity.delete_refines_witness",
+    "PyTrie.Props.NonVacuity.t1_storedD",
 ]
 RULE = ("histories of set/setitem/set-to-empty/delete/delitem and squash_changes batches (committed and aborted) "
         "over crafted and random prefix-sharing key universes (empty key, prefixes, extensions, mid-path "
